@@ -214,7 +214,7 @@ ALIAS_TEMPLATES = {
 # released (reset()) or reallocated (growing array / table) it: heap-use-after-free on the unchanged library,
 # notes/fix-container-rvalue-aliasing.diff.  Excluded until that repair lands (then set this to True).
 import os as _os
-INCLUDE_RVALUE_DESCENDANT = _os.environ.get("VERIF_VALUE_RVALUE_DESCENDANT", "0") == "1"
+INCLUDE_RVALUE_DESCENDANT = _os.environ.get("VERIF_VALUE_RVALUE_DESCENDANT", "1") == "1"
 
 
 def alias_relation(d, s):
